@@ -909,7 +909,11 @@ fn c17_check(c: &WrapCase) -> Result<(bool, Vec<&'static str>), String> {
     let mk_zone = |len: usize, skip: usize| -> &'static mut [Frame] {
         unsafe { core::slice::from_raw_parts_mut(map.aligned.cast::<Frame>().add(skip), len) }
     };
-    let nm = LLFree::metadata_size(&classing, zlen);
+    // the instance lives in [iskip, zlen): sometimes it does not start at the mapping's base, so
+    // that a larger region with the same end (and therefore the same header page) exists
+    let iskip = if c.bad_recover % 3 == 2 && zlen > 2 * TREE_FRAMES + 64 { TREE_FRAMES } else { 0 };
+    let ilen = zlen - iskip;
+    let nm = LLFree::metadata_size(&classing, ilen);
     let vol = || (llfree::util::aligned_buf(nm.local.max(64)), llfree::util::aligned_buf(nm.trees.max(64)));
     let (l0, t0) = vol();
     // untouched memory holds no instance
@@ -918,14 +922,14 @@ fn c17_check(c: &WrapCase) -> Result<(bool, Vec<&'static str>), String> {
         return Err(format!("[C17] recovering untouched memory returned {r:?}, expected Err(Initialization)"));
     }
     let (l1, t1) = vol();
-    let nvm = g("NvmAlloc::create", || NvmAlloc::<LLFree>::create(mk_zone(zlen, 0), false, &classing, l1, t1))?
-        .map_err(|e| format!("[C17] NvmAlloc::create(zone of {zlen} frames) failed: {e:?}"))?;
+    let nvm = g("NvmAlloc::create", || NvmAlloc::<LLFree>::create(mk_zone(ilen, iskip), false, &classing, l1, t1))?
+        .map_err(|e| format!("[C17] NvmAlloc::create(zone of {ilen} frames) failed: {e:?}"))?;
     let managed = nvm.frames();
-    let base_frame = map.aligned as usize / Frame::SIZE;
+    let base_frame = map.aligned as usize / Frame::SIZE + iskip;
     let meta_pages = nm.lower.div_ceil(Frame::SIZE);
-    let protected = base_frame + zlen - 1 - meta_pages..base_frame + zlen;
-    if managed + meta_pages + 1 > zlen {
-        return Err(format!("[C17] persistent allocator manages {managed} frames of a {zlen}-frame zone with {meta_pages} metadata pages + header"));
+    let protected = base_frame + ilen - 1 - meta_pages..base_frame + ilen;
+    if managed + meta_pages + 1 > ilen {
+        return Err(format!("[C17] persistent allocator manages {managed} frames of a {ilen}-frame zone with {meta_pages} metadata pages + header"));
     }
     let mut nheld: Vec<(usize, usize)> = vec![];
     for op in &c.ops {
@@ -966,24 +970,30 @@ fn c17_check(c: &WrapCase) -> Result<(bool, Vec<&'static str>), String> {
     // exhaust the base frames as well: none may land in the protected pages
     let state: Vec<bool> = g("scan", || (0..managed).map(|i| nvm.stats_at(FrameId(base_frame + i), 0).free_frames == 1).collect())?;
     drop(nvm);
-    // wrong size / shifted sub-range sharing the header page: must refuse
-    if zlen > TREE_FRAMES + 8 {
+    // regions that hold no instance of the same size must be refused:
+    //   larger region with the same end (same header page), smaller region with the same end,
+    //   shorter region from the same start (its last page is not the header)
+    let mut bad: Vec<(usize, usize, &str)> = vec![];
+    if iskip > 0 {
+        bad.push((zlen, 0, "larger region ending at the same header page"));
+    }
+    if ilen > TREE_FRAMES + 64 {
+        bad.push((ilen - TREE_FRAMES, iskip + TREE_FRAMES, "smaller region ending at the same header page"));
+    }
+    if ilen > 64 {
+        bad.push((ilen - 1, iskip, "region one frame shorter from the same start"));
+    }
+    for (len, skip, what) in bad {
         let (l2, t2) = vol();
-        let skip = match c.bad_recover % 2 {
-            0 => TREE_FRAMES, // shifted start (still tree-aligned), same header page
-            _ => 0,
-        };
-        let len = if skip == 0 { zlen - 1 } else { zlen - skip };
-        // a shorter zone from the same start does not end at the header page: it holds no instance
         let r = g("NvmAlloc::create(recover other size)", || NvmAlloc::<LLFree>::create(mk_zone(len, skip), true, &classing, l2, t2).map(|_| ()))?;
         if r != Err(Error::Initialization) {
-            return Err(format!("[C17] recovering a region of different size (skip {skip} frames, {len} frames) returned {r:?}, expected Err(Initialization)"));
+            return Err(format!("[C17] recovering a {what} ({len} frames starting {skip} frames into the mapping; the instance has {ilen} frames starting at {iskip}) returned {r:?}, expected Err(Initialization)"));
         }
         kinds.push("recover_size_mismatch");
     }
     // recover the instance: same allocation state
     let (l3, t3) = vol();
-    let rec = g("NvmAlloc::create(recover)", || NvmAlloc::<LLFree>::create(mk_zone(zlen, 0), true, &classing, l3, t3))?
+    let rec = g("NvmAlloc::create(recover)", || NvmAlloc::<LLFree>::create(mk_zone(ilen, iskip), true, &classing, l3, t3))?
         .map_err(|e| format!("[C17] recovering the instance failed: {e:?}"))?;
     let state2: Vec<bool> = g("scan", || (0..managed).map(|i| rec.stats_at(FrameId(base_frame + i), 0).free_frames == 1).collect())?;
     if let Some(i) = (0..managed).find(|&i| state[i] != state2[i]) {
